@@ -287,8 +287,10 @@ CheckCb(tk, e, tk2) ==
     \cup V(rstart /\ proc /\ FullObs /\ (~step \/ (HasHead /\ tk2.fired # <<>>)) /\ e.pend[1] = ExpectedPend(tk, tk2)[1] /\ e.pend[2] = ExpectedPend(tk, tk2)[2]
              => e.pend[3] = ExpectedPend(tk, tk2)[3],
            "C07", "the pending transition shown to the guards does not carry the payload supplied with that request")
-    \cup V(IsLife(e.m) /\ e.s # NONE /\ proc /\ FullObs /\ e.cur[1] = survNow[1] /\ e.cur[2] = survNow[2] => e.cur[3] = survNow[3],
+    \cup V(IsLife(e.m) /\ e.s # NONE /\ (proc \/ actv) /\ FullObs /\ survNow # NoT /\ e.cur[2] = survNow[2] => e.cur[3] = survNow[3],
            "C07", "enter/reenter/exit do not see the payload of the transition being applied")
+    \cup V(rstart /\ actv /\ FullObs /\ e.pend # NoT /\ e.pend[2] = tk.lastreq[2] => e.pend[3] = tk.lastreq[3],
+           "C07", "the pending transition shown to the guards during activation does not carry the payload supplied with that request")
     \* ---- C16: logging relative to the deliveries observed
     \cup V0(~tk.logger => e.pre = <<>> /\ \A q \in 1 .. Len(e.acts) : e.acts[q].lg = <<>>,
            "C16", "log records although no logger is attached")
@@ -439,6 +441,7 @@ CheckRet(tk, e, tk2) ==
     \* ---- C11: history
     \cup V(HasHist /\ e.prev # NoT /\ e.act # NONE /\ tk.op \notin PassiveOps => e.prev[2] = e.act, "C11", "previousTransition() does not lead to the active state")
     \cup V(HasHist /\ (proc \/ actv) /\ FullObs => e.prev = sv, "C11", "previousTransition() is not the transition that survived its guards and was applied")
+    \cup V(HasHist /\ (proc \/ actv) /\ FullObs /\ sv # NoT /\ e.prev[2] = sv[2] => e.prev[3] = sv[3], "C07", "previousTransition() does not carry the payload of the transition that was applied")
     \cup V(HasHist /\ tk.op \in PassiveOps => e.prev = tk.obs.prev, "C11", "previousTransition() changed without a processing step")
     \cup V(tk.op = "rt" /\ tk.oa = NONE => e.r = 0 /\ Unchanged(tk, e) /\ tk.dseq = <<>>, "C11", "replayTransition(invalid) did not return false or changed the machine")
     \cup V(tk.op = "rt" /\ tk.oa # NONE => e.r = 1 /\ e.act = tk.oa /\ e.prev = <<NONE, tk.oa, 0>>, "C11", "replayTransition(d) did not activate d or did not record it")
